@@ -137,7 +137,9 @@ fn thresholds(cfg: &Cfg, rep: &mut Report) {
                             let mut sub: Vec<Signer> = (0..n).filter(|i| mask >> i & 1 == 1).map(|i| signers[i].clone()).collect();
                             if with_outsider {
                                 if weighted {
-                                    sub.push(outsider.clone());
+                                    // (anywhere in the list: the account passes signers in rule order)
+                                    let pos = (mask as usize) % (sub.len() + 1);
+                                    sub.insert(pos, outsider.clone());
                                 } else {
                                     continue; // the simple policy counts what the account hands over; the account filters
                                 }
